@@ -72,9 +72,11 @@ def ensure_pycode(verbose=False):
         if os.path.isfile(done):
             return home
         # drop caches of other trees (disk hygiene)
-        for d in os.listdir(WORK):
-            if d.startswith('pc-') and d != 'pc-' + h:
-                shutil.rmtree(os.path.join(WORK, d), ignore_errors=True)
+        old = sorted((d for d in os.listdir(WORK) if d.startswith('pc-') and d != 'pc-' + h
+                      and os.path.isdir(os.path.join(WORK, d))),
+                     key=lambda d: os.path.getmtime(os.path.join(WORK, d)))
+        for d in old[:-2]:
+            shutil.rmtree(os.path.join(WORK, d), ignore_errors=True)
         shutil.rmtree(home, ignore_errors=True)
         os.makedirs(os.path.join(home, '.andes'))
         env = dict(os.environ)
